@@ -42,17 +42,21 @@ def safeSyn : Plan → Bool
   | .project _ _ => false
   | .bind _ _ _ => false
 
-/-- `r'` binds everything `r` binds -/
-def Extends (r r' : Row) : Prop := ∀ v, (Row.get r v).isSome = true → (Row.get r' v).isSome = true
+/-- `r'` binds everything `r` binds, to the same values -/
+def Extends (r r' : Row) : Prop := ∀ v x, Row.get r v = some x → Row.get r' v = some x
 
-theorem extends_refl (r : Row) : Extends r r := fun _ h => h
-theorem extends_trans {a b c : Row} (h1 : Extends a b) (h2 : Extends b c) : Extends a c := fun v h => h2 v (h1 v h)
+theorem Extends.isSome {r r' : Row} (h : Extends r r') (v : Var) (hv : (Row.get r v).isSome = true) :
+    (Row.get r' v).isSome = true := by
+  cases hx : Row.get r v with
+  | none => simp [hx] at hv
+  | some x => rw [h v x hx]; rfl
 
-theorem matchTerm_extends (t : Term) (x : Val) (b b' : Row) (h : matchTerm t x b = some b') : Extends b b' := by
-  intro v hv
-  cases hg : Row.get b v with
-  | none => simp [hg] at hv
-  | some y => rw [matchTerm_preserves t x b b' v y h hg]; rfl
+theorem extends_refl (r : Row) : Extends r r := fun _ _ h => h
+theorem extends_trans {a b c : Row} (h1 : Extends a b) (h2 : Extends b c) : Extends a c :=
+  fun v x h => h2 v x (h1 v x h)
+
+theorem matchTerm_extends (t : Term) (x : Val) (b b' : Row) (h : matchTerm t x b = some b') : Extends b b' :=
+  fun v y hg => matchTerm_preserves t x b b' v y h hg
 
 theorem matchTerm_binds (v : Var) (x : Val) (b b' : Row) (h : matchTerm (.var v) x b = some b') :
     (Row.get b' v).isSome = true := by
@@ -90,7 +94,7 @@ theorem runChain_binds (ts : List (Term × Val)) (row b : Row) (h : runChain ts 
       rcases mem_cons.1 hm with heq | hm'
       · have hb : (Row.get r' v).isSome = true := by
           rw [← heq] at hmt; exact matchTerm_binds v x row r' hmt
-        exact runChain_extends rest r' b h v hb
+        exact (runChain_extends rest r' b h).isSome v hb
       · exact ih r' h hm'
 
 theorem mem_termVar (t : Term) (v : Var) (h : v ∈ termVar t) : t = .var v := by
@@ -156,12 +160,10 @@ theorem mergeRows_extends (a b m : Row) (ha : Row.WF a) (h : mergeRows a b = som
   by_cases hc : compat a b
   · rw [mergeRows_some a b ha hc] at h; cases h
     constructor
-    · intro v hv; rw [get_unionRows]; cases hx : Row.get a v with
-      | none => simp [hx] at hv
-      | some x => rfl
-    · intro v hv; rw [get_unionRows]; cases hx : Row.get a v with
+    · intro v x hv; rw [get_unionRows, hv]
+    · intro v y hv; rw [get_unionRows]; cases hx : Row.get a v with
       | none => exact hv
-      | some x => rfl
+      | some x => rw [hc v x y hx hv]
   · rw [mergeRows_none a b ha hc] at h; cases h
 
 /-- what every row of `exec p ctx inc` satisfies: it extends some incoming row and binds `planCertain p`
@@ -197,7 +199,7 @@ theorem exec_facts (db : DB) (p : Plan) (hs : safeSyn p = true) :
       intro v hv
       simp only [planCertain, flatMap_cons, mem_append] at hv
       rcases hv with hv | hv
-      · exact hext v (h2 v (by simpa [mem_append, or_assoc] using hv))
+      · exact hext.isSome v (h2 v (by simpa [mem_append, or_assoc] using hv))
       · exact hc v (by simpa [planCertain] using hv)
   | values vars rows =>
     intro ctx inc hi b hb
@@ -248,10 +250,10 @@ theorem exec_facts (db : DB) (p : Plan) (hs : safeSyn p = true) :
         obtain ⟨⟨i', hi', hext⟩, hc⟩ := ih hs _ _ hw b hb''
         simp at hi'; subst hi'
         refine ⟨⟨row, hrow, ?_⟩, hc⟩
-        intro w hw'
+        intro w x hw'
         apply hext
         by_cases hwv : w = v
-        · subst hwv; rw [Row.get_insert_self]; rfl
+        · subst hwv; rw [hg] at hw'; cases hw'
         · rw [Row.get_insert_ne _ _ _ _ hwv]; exact hw'
       | some g =>
         rw [hg] at hb'; simp only at hb'
@@ -276,7 +278,7 @@ theorem exec_facts (db : DB) (p : Plan) (hs : safeSyn p = true) :
     intro v hv
     simp only [planCertain, mem_append] at hv
     rcases hv with hv | hv
-    · exact hext v (hc' v hv)
+    · exact hext.isSome v (hc' v hv)
     · exact hc v hv
   | hashJoin l r ihl ihr =>
     intro ctx inc hi b hb
@@ -294,8 +296,8 @@ theorem exec_facts (db : DB) (p : Plan) (hs : safeSyn p = true) :
     intro v hv
     simp only [planCertain, mem_append] at hv
     rcases hv with hv | hv
-    · exact e1 v (hc' v hv)
-    · exact e2 v (hcr v hv)
+    · exact e1.isSome v (hc' v hv)
+    · exact e2.isSome v (hcr v hv)
   | nlJoin l r ihl ihr =>
     intro ctx inc hi b hb
     simp only [safeSyn, Bool.and_eq_true] at hs
@@ -310,8 +312,8 @@ theorem exec_facts (db : DB) (p : Plan) (hs : safeSyn p = true) :
     intro v hv
     simp only [planCertain, mem_append] at hv
     rcases hv with hv | hv
-    · exact e1 v (hc' v hv)
-    · exact e2 v (hcr v hv)
+    · exact e1.isSome v (hc' v hv)
+    · exact e2.isSome v (hcr v hv)
 
 /-- **the decidable condition implies the semantic one** -/
 theorem safe_of_safeSyn (db : DB) (p : Plan) (hs : safeSyn p = true) : Safe db p := by
